@@ -118,6 +118,9 @@ VARIANTS = [
     ("C10", "flag fix reverted (real-expanded)", SCH,
      r'diag\["converged"\] = bool\(_max_below_diagonal\(H\) <= tol\)\n            diag\["iterations_run"\] = k \+ 1\n            break\n\n        # Adaptive',
      'diag["converged"] = True\n            diag["iterations_run"] = k + 1\n            break\n\n        # Adaptive', "F"),
+    ("C10", "post-sweep negligibility test reads the pre-sweep iterate", SCH, r"h_sub = H_tmp\[i, i - 1\]", "h_sub = H[i, i - 1]", "F"),
+    ("C10", "post-sweep negligibility test through a local alias of the contracted iterate", SCH, r"h_sub = H_tmp\[i, i - 1\]",
+     "Hc = H_tmp\n            h_sub = Hc[i][i - 1]", "S"),
     # ---- C13
     ("C13", "constant flag", S, r'"converged": residual_norms\[-1\] <= self\.tol if residual_norms else False', '"converged": True', "F"),
     ("C13", "CGNE residual recurrence", S, r"R = R - alpha_k \* W", "R = R + alpha_k * W", "F"),
